@@ -81,9 +81,8 @@ Fixpoint skip_space (l : bytes) : bytes :=
 Definition parse_offset (v : bytes) : option Z :=
   let l := skip_space (c_str v) in
   let '(neg, l1) := match l with
-                    | 45 :: r => (true, r)
-                    | 43 :: r => (false, r)
-                    | _ => (false, l)
+                    | ch :: r => if ch =? 45 then (true, r) else if ch =? 43 then (false, r) else (false, l)
+                    | [] => (false, l)
                     end in
   let '(a, seen) := digits_val l1 0%Z false in
   if negb seen then None
